@@ -435,9 +435,19 @@ pub fn report(ctx: &Ctx, sub: &Sub, input: &[u8], fail: &Fail) {
         "tier": ctx.tier,
     });
     let _ = std::fs::write(&path, serde_json::to_string_pretty(&v).unwrap());
-    println!("  failure in {}: [{}] {}", sub.name, sig, fail.msg);
+    let mut shown = fail.msg.clone();
+    if shown.len() > 1500 {
+        clip(&mut shown, 1500);
+        shown.push_str(" ... (full text in the replay file)");
+    }
+    println!("  failure in {}: [{}] {}", sub.name, sig, shown);
     if !fail.decoded.is_empty() {
         for l in fail.decoded.lines().take(40) {
+            let mut l = l.to_string();
+            if l.len() > 400 {
+                clip(&mut l, 400);
+                l.push_str(" ...");
+            }
             println!("    | {}", l);
         }
     }
